@@ -54,7 +54,10 @@ def _gen_node(rng, st, depth, wstack):
         kind = rng.choice(kinds)
         return ['L', nid, kind, rng.below(100000)]
     if k == 'K':
-        return ['K', nid, rng.below(4)]
+        # kinds 0..3: plain calls; >= 4: scalar multiplication variant (low 4 bits) with an edge-case scalar class
+        if rng.chance(0.5):
+            return ['K', nid, rng.below(4)]
+        return ['K', nid, 16 * rng.below(8) + 4 + rng.below(12)]
     if k in ('A', 'S'):
         return [k, nid, _gen_seq(rng, st, depth + 1, wstack, 4), _gen_seq(rng, st, depth + 1, wstack, 3),
                 _gen_seq(rng, st, depth + 1, wstack, 3)]
